@@ -166,6 +166,11 @@ def rule_SO(run: Run) -> RuleResult:
     if not all(saw.values()):
         ok_err = False
         d_err = d_err or f"outcomes present: {saw}"
+    # the default is consulted after the cases, not instead of them
+    def_paths = [p for p in ps if p.status == "ret" and isinstance(_unwrap_depends(p.ret)[0], Child) and _unwrap_depends(p.ret)[0].path == "default"]
+    if def_paths and not any([c for c in p.conds if COND in c[2]] for p in def_paths):
+        ok_def = False
+        d_def = "the default is returned without any condition having been tested (before the cases)"
     res.add("labrea.conditional.CaseWhen._evaluate:first condition that holds selects its own result", ok_first, f, ln, d_first or "result of the same tuple at the first success", nec)
     res.add("labrea.conditional.CaseWhen._evaluate:default only when no condition held", ok_def, f, ln, d_def or "after the loop", nec)
     res.add("labrea.conditional.CaseWhen._evaluate:CaseWhenError when nothing applies", ok_err, f, ln, d_err or "raise after the loop without default", nec)
@@ -555,7 +560,7 @@ def rule_EH(run: Run) -> RuleResult:
             if "EvaluationError" in hname:
                 if same and same[0][1] is True:
                     saw_same = True
-                    if rev.text != in_handler and not (rev.target is not None and rev.target.key() == f"exc-of({SRC})"):
+                    if rev.text != "<reraise>" and not (rev.target is not None and rev.target.key() == f"exc-of({SRC})"):
                         ok_same = False
                         d_same = f"own error not re-raised unchanged: raise {rev.text[:50]}"
                 elif same and same[0][1] is False:
